@@ -227,6 +227,8 @@ class Engine:
         self.edge_cache = {}
         self.trace_returns = None
         self.live_cache = {}
+        # analyses of small value-manipulating functions may ask for every locally built ADT to be tracked
+        self.track_all_adts = bool(getattr(auto, "track_all_adts", False))
 
     # ---- ADT helpers -------------------------------------------------------------------
     def variants(self, adt):
@@ -411,7 +413,7 @@ class Engine:
                     payload = ("b", bool(f0["int"]), (), ())
                 else:
                     payload = ("i", f0["int"])
-            av = enum(c["enum"], [(c["variant"], payload)], None) if c["enum"] in SHAPE_ADTS else TOP
+            av = enum(c["enum"], [(c["variant"], payload)], None) if (c["enum"] in SHAPE_ADTS or self.track_all_adts) else TOP
             return ("cell", av) if c.get("isref") else av
         if "int" in c:
             if c["ty"] == "bool":
@@ -590,10 +592,10 @@ class Engine:
                 return ("t", tuple(ops))
             if ak == "closure":
                 return ("clo", rv["closure"], tuple(ops))
-            if ak == "adt" and rv["adt"] in TRACK_STRUCTS:
+            if ak == "adt" and (rv["adt"] in TRACK_STRUCTS or (self.track_all_adts and (self.facts.adts.get(rv["adt"]) or {}).get("kind") == "struct")):
                 return ("s", rv["adt"], tuple(ops))
             if ak == "adt":
-                vs = self.variants(rv["adt"]) if rv["adt"] in SHAPE_ADTS else None
+                vs = self.variants(rv["adt"]) if (rv["adt"] in SHAPE_ADTS or self.track_all_adts) else None
                 if vs is not None:
                     return enum(rv["adt"], [(rv["variant"], ops[0] if ops else None)], None)
                 return TOP
@@ -1385,7 +1387,17 @@ U8_CLASSES = {
     "is_ascii": mask_of(range(0, 128)),
 }
 
+def _then_some(eng, fn, bb, t, env, state, args, where):
+    c = args[0] if args else TOP
+    v = eng.freeze(env, args[1]) if len(args) > 1 else TOP
+    if c[0] == "b" and c[1] is not None:
+        return [(enum(OPTION, [("Some", v)] if c[1] else [("None", None)]), env, state)]
+    return [(enum(OPTION, [("None", None), ("Some", v)]), env, state)]
+
+
 MODELS = {
+    "core::bool::then_some": _then_some,
+    "core::bool::<impl bool>::then_some": _then_some,
     "core::option::Option::is_none": _is_variant(OPTION, ["None"], ["Some"]),
     "core::option::Option::is_some": _is_variant(OPTION, ["Some"], ["None"]),
     "core::result::Result::is_ok": _is_variant(RESULT, ["Ok"], ["Err"]),
